@@ -1,6 +1,6 @@
 // Command translate regenerates /verif/coq/Gen/*.v from the current Go sources of the
-// repository under verification. It stops (exit status 3, message TRANSLATOR-STOP) when
-// a translated function no longer has a shape it understands.
+// repository under verification. When a translated function no longer has a shape it understands,
+// the generator concerned stops (message TRANSLATOR-STOP) and its file becomes a stub that does not compile.
 package main
 
 import (
@@ -8,7 +8,21 @@ import (
 	"fmt"
 	"os"
 	"path/filepath"
+	"strings"
 )
+
+func runGen(fn func(string) string, repo string) (text, stop string) {
+	defer func() {
+		if r := recover(); r != nil {
+			if ts, ok := r.(translatorStop); ok {
+				stop = ts.msg
+				return
+			}
+			stop = fmt.Sprintf("translator panic: %v", r)
+		}
+	}()
+	return fn(repo), ""
+}
 
 func main() {
 	repo := flag.String("repo", "/repo", "repository working tree")
@@ -27,7 +41,16 @@ func main() {
 		fatal("%v", err)
 	}
 	for _, g := range gens {
-		writeIfChanged(filepath.Join(*out, g.file), g.fn(*repo))
-		fmt.Println("generated", g.file)
+		text, stop := runGen(g.fn, *repo)
+		if stop != "" {
+			msg := strings.ReplaceAll(strings.ReplaceAll(stop, "*)", "* )"), "\n", " ")
+			text = "(* TRANSLATOR-STOP: " + msg + " *)\n(* deliberately ill-typed: what depends on this file no longer checks *)\n" +
+				"Definition translator_stop : False := I.\n"
+			fmt.Fprintf(os.Stderr, "TRANSLATOR-STOP: %s: %s\n", g.file, msg)
+			fmt.Printf("stopped %s: %s\n", g.file, msg)
+		} else {
+			fmt.Println("generated", g.file)
+		}
+		writeIfChanged(filepath.Join(*out, g.file), text)
 	}
 }
